@@ -39,3 +39,15 @@ func SimServerUserId(conn net.Conn) (uint16, bool) {
 	}
 	return u.UserId, true
 }
+
+// SimLiveConns returns the server-side connections of the live sessions. Called at quiescent
+// points only.
+func (s *ServerDnsListener) SimLiveConns() []net.Conn {
+	var out []net.Conn
+	for _, u := range s.connections {
+		if u != nil {
+			out = append(out, u)
+		}
+	}
+	return out
+}
